@@ -197,6 +197,9 @@ func (s *Server) handleRPCReadSector(stream net.Conn, log *zap.Logger) error {
 
 	if err := req.Validate(s.hostKey.PublicKey()); err != nil {
 		return errorBadRequest("request invalid: %v", err)
+	} else if req.Offset%rhp4.LeafSize != 0 || req.Length%rhp4.LeafSize != 0 {
+		// reject before debiting: such a read cannot be served or proven
+		return errorBadRequest("request invalid: offset and length must be multiples of the leaf size")
 	}
 	prices, token := req.Prices, req.Token
 	lap("validate request")
